@@ -97,12 +97,14 @@ func (u *executeUnit) coRun(cycle int, ctx *risc.Context, app risc.Application) 
 	if err != nil {
 		return false, 0, 0, false, err
 	}
+	ctx.VerifExec(u.runner.SequenceID, u.runner.Pc, execution, u.memory)
 	if execution.Return {
 		return false, 0, 0, true, nil
 	}
 
 	if execution.MemoryChange && u.mmu.doesExecutionMemoryChangesExistsInL3(execution) {
 		u.mmu.writeExecutionMemoryChangesToL3(execution)
+		ctx.VerifStore(u.runner.SequenceID, execution)
 		ctx.DeletePendingRegisters(u.runner.Runner.ReadRegisters(), u.runner.Runner.WriteRegisters())
 		return false, 0, 0, false, nil
 	}
